@@ -253,7 +253,23 @@ func c15Uniform(c *Ctx, prog *load.Program) {
 	want := []*sym.Term{sym.Ite(ok, ix, fpConst(0)), sym.Ite(ok, iy, fpConst(1)), sym.Ite(ok, fpConst(1), fpConst(0)), sym.ConstBool(true)}
 	o, d := ValuesUnder(fOr(FTerm(ok), fNot(FTerm(ok))), []*sym.Term{got[0], got[1], got[2], flag}, want)
 	c.R.Decide(o, "C15-3", "SetUniformBytes", pos, "u = OS2IP(src) mod p; (x', y') = map_to_curve_simple_swu(u); (x, y) = iso_map(x', y'); result = (x, y, 1), or the identity when a denominator vanishes; validity flag set", "SetUniformBytes differs: "+d)
-	c.R.Floor("C15-3", 1)
+	// every length SetWideBytes reduces (32..64 bytes, C01) must be mapped: no panic for any of them
+	bad := ""
+	for L := 32; L <= 64 && bad == ""; L++ {
+		L := L
+		rl := RunFn(prog, set, Method(models.PointType, "SetUniformBytes"), &RunOpts{Args: named("v", "src"), Pre: func(ex *absint.Exec, st *absint.State, args []absint.Val) {
+			args[1] = ex.BytesToSlice(st, absint.SymBytes("src", L, 0), "src")
+		}})
+		if rl.Err != nil || len(rl.Ex.Fails) > 0 {
+			bad = fmt.Sprintf("length %d: %s", L, rl.Problem())
+		} else if len(rl.Ex.Panics) > 0 {
+			bad = fmt.Sprintf("length %d: a panic (%s) is reachable when {%s}", L, rl.Ex.Panics[0].Msg, GuardString(rl.Ex.Panics[0].Guard))
+		} else if rl.Out.Ret == nil {
+			bad = fmt.Sprintf("length %d: the call does not return", L)
+		}
+	}
+	c.R.Decide(bad == "", "C15-3", "SetUniformBytes/lengths", pos, "every uniform string of 32..64 bytes is mapped (no panic, the call returns)", "a uniform string that must be mapped is refused: "+bad)
+	c.R.Floor("C15-3", 2)
 }
 
 type swuConsts struct {
